@@ -21,8 +21,8 @@ ID = "C11"
 DELTA = ST.DELTA
 
 TIERS = {
-    "quick": {"runs": 12000, "stat_jobs": 36, "stat_M": 20000, "selftest": 16, "budget_s": 240, "chunk": 150},
-    "thorough": {"runs": 160000, "stat_jobs": 144, "stat_M": 100000, "selftest": 64, "budget_s": 1500, "chunk": 400},
+    "quick": {"runs": 12000, "stat_jobs": 40, "stat_M": 20000, "selftest": 16, "budget_s": 240, "chunk": 150},
+    "thorough": {"runs": 160000, "stat_jobs": 160, "stat_M": 100000, "selftest": 64, "budget_s": 1500, "chunk": 400},
 }
 
 RULE = (
@@ -660,6 +660,7 @@ STAT_COMBOS = [
     ("replacement", None, False), ("replacement", "by_label", False), ("single_pass", None, False),
     ("single_pass", "by_label", False), ("dynamic", None, False), ("dynamic", "by_label", False),
     ("proportion", None, False), ("replacement", None, True), ("dynamic", "by_label", True),
+    ("proportion", None, False, "sparse"),  # a small fraction of a large class: where sparse / rejection-style draws would live
 ]
 
 
@@ -669,14 +670,18 @@ def stat_scenario(verif_seed, j, tier):
     from ..runner import run_seed
 
     rnd = random.Random(run_seed(verif_seed, "C11-stat", j))
-    method, strat, smoothing = STAT_COMBOS[j % len(STAT_COMBOS)]
+    combo = STAT_COMBOS[j % len(STAT_COMBOS)]
+    method, strat, smoothing = combo[:3]
+    sparse = len(combo) > 3
     small = (j // len(STAT_COMBOS)) % 4 == 3 and method in ("replacement", "single_pass")
     if small:
         npos, nneg = rnd.randint(30, 90), rnd.randint(30, 90)
+    elif sparse:
+        npos, nneg = rnd.randint(400, 900), rnd.randint(400, 900)
     else:
         npos, nneg = rnd.randint(101, 300), rnd.randint(101, 300)
     while abs(npos - nneg) < 25:  # make swapped class parameters visible in the means
-        nneg = rnd.randint(30, 90) if small else rnd.randint(101, 300)
+        nneg = rnd.randint(30, 90) if small else rnd.randint(400, 900) if sparse else rnd.randint(101, 300)
     spec = {
         "pos": gen_values(rnd, npos, "unique", -3.0, 6.0), "neg": gen_values(rnd, nneg, "unique", -6.0, 3.0),
         "dtype": "float64", "score_class": rnd.choice(["pos", "neg"]), "equal_class": rnd.choice(["pos", "neg"]),
@@ -687,7 +692,7 @@ def stat_scenario(verif_seed, j, tier):
         spec["nb_easy_neg"] = rnd.randint(nneg // 2, nneg)
     cfg = {"sampling_method": method, "stratified_sampling": strat, "smoothing": smoothing}
     if method == "proportion":
-        cfg["ratio"] = rnd.choice([0.1, 0.25, 0.5, 0.8])
+        cfg["ratio"] = rnd.choice([0.02, 0.04, 0.06]) if sparse else rnd.choice([0.1, 0.25, 0.5, 0.8])
     return {"stat": True, "np_seed": rnd.randrange(2**31), "object": spec, "cfg": cfg, "M": TIERS[tier]["stat_M"]}
 
 
@@ -730,6 +735,11 @@ def execute_stat(scn, ctx):
     src_sizes = np.array([npos, nneg, src.nb_easy_pos, src.nb_easy_neg], dtype=float)
     if eff == "proportion":
         r = cfg["ratio"]
+        for nm, c in (("pos", cp), ("neg", cn)):
+            if (c > 1).any():  # the source's scores are distinct: no value can be drawn twice without replacement
+                w = np.argwhere(c > 1)[0]
+                viol.append({"invariant": "C11.proportion_subset", "tags": tags,
+                             "detail": f"{nm}: value #{int(w[1])} occurs {int(c[w[0], w[1]])} times in sample {int(w[0])} of {Mn} (drawn with replacement?)"})
         kp, kn = max(int(np.floor(r * npos + 1e-9)), 1), max(int(np.floor(r * nneg + 1e-9)), 1)
         for nm, c, k, n in (("pos", cp, kp, npos), ("neg", cn, kn, nneg)):
             pres = (c > 0).astype(float)
